@@ -20,9 +20,9 @@ CHECKS = {
  "C02": (MC, "3 (C02)", "history-tree exploration: every op sequence to a depth over the full (h1,h2) class universe, exact reference map",
    "Every sequence of add / add_n / merge / clear up to depth 5-6 (quick) / 6-7 (thorough) for 13 table shapes incl. w != d, 3 shift vectors, 5 counter types, over all (h1,h2) hash classes plus same-class distinct elements; at every node true(x) <= query_point(x) <= total for every element, add's return value and single-distinct exactness.",
    "Depth-bounded; classes enumerated through the hasher seam; totals < 255 (overflow is outside the property)."),
- "C03": (EX, "3 (C03), 7", "exhaustive sweeps over register abstractions and canonical register configurations (deterministic clauses only)",
-   "PARTIAL: the RMS / mean / 3-sigma-tail clauses over independent hash seeds are not decided (un-enumerable outcome space; no sampling is substituted). Decided: count() returns for every register histogram of the sweep (values up to 255), empty => 0, <= 8 occupied registers => within 1 for b >= 9, and for every b and every n on a dense geometric grid in [0.02m, 50m] the canonical register vector (exact quantiles of the register law) is counted within 1 sigma*n (2 inside the HLL++ bump) - reads every threshold, alpha branch and bias/raw-estimate row.",
-   "Bias only, not variance; canonical configuration is a deterministic necessary condition for 'mean close to 0'."),
+ "C03": (EX, "3 (C03), 7, 8.2", "exhaustive sweeps over register abstractions and canonical configurations + exact occupancy-law propagation in the linear-counting regime",
+   "PARTIAL. Decided: (1) count() returns for every register histogram of the sweep (values up to 255), empty => 0, <= 8 occupied registers => within 1 for b >= 9; (2) for every b and every n on a dense geometric grid in [0.02m, 50m] the canonical register vector (exact quantiles of the register law) is counted within 1 sigma*n (2 inside the HLL++ bump) - reads every threshold, alpha branch and bias/raw-estimate row; relative_error() itself is compared with the HLL standard error; (3) inside the linear-counting regime (count() verified rank-independent on the real code) the RMS, mean and 3-sigma tail of the relative error over ALL hash streams are computed exactly under the ideal-hash measure (occupancy law propagated layer by layer, real count() per occupied-register count) for b <= 9 (quick) / 11 (thorough). NOT decided: the distributional clauses beyond the linear-counting regime / for larger b, and real hashers on structured keys (un-enumerable outcome space; no sampling is substituted).",
+   "Canonical configuration probes bias, not variance; ideal-hash measure (uniform register choice) in part (3)."),
  "C04": (EX, "3 (C04)", "small-scope history trees + structured grid with exhaustive read (merge) schedules, sorted-vector oracle",
    "(A) every insert/read sequence up to depth 7/10 for 64 tiny configurations: n_centroids <= delta+3 in every node. (B) 9 exact quantile-function shapes x 5 insertion orders x 4 scale functions x 6 deltas x n up to 10^5 x 6 backlogs x every read schedule with <= 1/2 reads on 8 positions; rank error of quantile(q)/cdf(x) on 403/401 grid points against the sorted input <= c*W + 2/n. Smooth shapes in zigzag/blocks order exceed 1 W (<= 3 W): recorded known findings, printed on every run.",
    "Float inputs are infinite: the claim covers the stated finite families; tie-aware rank interval; release semantics."),
